@@ -10,7 +10,7 @@ from ptstat.world import mass_sym
 from ptstat import AnalysisError, algebra
 from ptstat.taint import tainted_names, reductions_over
 from spec import neutron as spec
-from .common import eq, fsite, folder, _s
+from .common import eq, fsite, folder, _s, constants_lint
 from .nworld import neutron_world
 
 EXPLANATION = (
@@ -184,5 +184,7 @@ def run(ctx):
                   f"sign of {_s(kout[k], 160)} is not determined by abs/max/squares", fsite(ctx, callees[0]),
                   sample=_s(kout[k], 160))
     ctx.floor("R6", 6)
+    constants_lint(ctx, "R4", ["plancks_constant", "electron_volt", "neutron_mass", "atomic_mass_constant"],
+                   "lambda = h / sqrt(2 m_n E): the wavelength/energy/velocity conversions")
     ctx.unit("functions_inlined", len(set(I.calls)))
     ctx.assume("Im b_c <= 0 and sigma_s > 0 for every atom (table facts checked under C03-R7)")
